@@ -116,7 +116,15 @@ func overlayFiles(ps pkgSpec) (map[string][]byte, error) {
 			return nil, err
 		}
 		name := strings.TrimSuffix(filepath.Base(t), ".tmpl")
-		ov[filepath.Join(target, name)] = []byte(strings.ReplaceAll(string(b), "PKGNAME", ps.Name))
+		src := strings.ReplaceAll(string(b), "PKGNAME", ps.Name)
+		if ps.Path == rootPath {
+			src = strings.ReplaceAll(src, "BKLIMPORT", "")
+			src = strings.ReplaceAll(src, "BKLQ", "")
+		} else {
+			src = strings.ReplaceAll(src, "BKLIMPORT", "\t\"github.com/gopatchy/bkl\"")
+			src = strings.ReplaceAll(src, "BKLQ", "bkl.")
+		}
+		ov[filepath.Join(target, name)] = []byte(src)
 	}
 	files, _ := filepath.Glob(filepath.Join(verifDir, "harness", ps.HarnessDir, "*.go"))
 	for _, f := range files {
